@@ -44,7 +44,7 @@ def run(ctx, report):
         rets = ret_exprs(an)
         ok, why = False, "unrecognised shape"
         if len(rets) == 1:
-            pieces = fmtstr.pieces_of_string(rets[0][2])
+            pieces = fmtstr.pieces_of_string(rets[0][2], an)
             if pieces is None:
                 why = "return value is not a format!() string: %s" % short(rets[0][2], 200)
             elif len(pieces) == 2 and pieces[0][0] == "lit" and pieces[1][0] == "arg":
@@ -55,7 +55,7 @@ def run(ctx, report):
                     why = "prefix literal is %r" % lit
                 elif kind != "display" or opts:
                     why = "payload is formatted with {:%s} %s" % (kind, opts)
-                elif not (enc.k == "call" and enc.a[0].name == "encode" and (enc.a[0].trait or "").endswith("base64::Engine") and len(enc.a[1]) == 2):
+                elif not (enc.k == "call" and (enc.a[0].name, len(enc.a[1])) in (("encode", 2), ("encode_string", 3)) and (enc.a[0].trait or "").endswith("base64::Engine")):
                     why = "payload is %s, expected ENGINE.encode(bytes)" % short(enc, 160)
                 elif not any(n.endswith(ENGINE) for n in engine_of(enc.a[1][0])):
                     why = "base64 engine is %s, expected %s" % (engine_of(enc.a[1][0]), ENGINE)
@@ -63,8 +63,12 @@ def run(ctx, report):
                     # the encoded bytes: fresh buffer filled only by self.encode
                     buf = None
                     for b, t in f.calls():
-                        if b.idx == enc.site and t.callee and t.callee.name == "encode" and len(t.args) == 2:
+                        if b.idx == enc.site and t.callee and (t.callee.name, len(t.args)) in (("encode", 2), ("encode_string", 3)):
                             buf = trace_local(an, t.args[1])
+                            if buf is not None and f.local_ty(buf).get("k") == "ref":
+                                # the bytes are passed by reference: the buffer is what it points to
+                                tg = an.resolve_ref(buf)
+                                buf = shapes.root_local(an, tg[0]) if tg is not None and tg[1] == [] and tg[2] is False else None
                     if buf is None:
                         why = "cannot find the encoded buffer"
                     else:
